@@ -794,6 +794,13 @@ def id_fresh_objects(ctx):
                         n += 1
                         key = '%s.%s|made-by-%s' % (adt_name.split('::')[-1], field, short(fn.root or fn.name))
                         e = _strip_clones(fn.expr_of_operand(s_['rv']['ops'][idx]))
+                        # a new single-field wrapper around the shared object (`struct Schedule(Arc<Mutex<..>>)` with Deref) is the object
+                        from .newtypes import known_adts as _known_adts
+                        for _ in range(3):
+                            if e[0] == 'agg' and e[1] == 'tuple' and len(e[3]) == 1:
+                                e = _strip_clones(e[3][0])      # the wrapper after the transparency pass (dsa/newtypes.py)
+                            elif e[0] == 'agg' and len(e[3]) == 1 and str(e[2]).startswith('desync::') and str(e[2]) not in _known_adts() and '::' not in str(e[2])[len('desync::'):]:
+                                e = _strip_clones(e[3][0])
                         want = 'alloc::sync::Arc::new' if kind == 'arc' else 'std::sync::poison::mutex::Mutex::new'
                         if e[0] == 'call' and (e[1] == want or (kind == 'any' and e[1] in ('alloc::sync::Arc::new', 'std::sync::poison::mutex::Mutex::new'))):
                             out.append(ok(R, key, 'a fresh `%s(..)` of this constructor call' % want.split('::')[-2], fn=fn.name))
